@@ -8,6 +8,8 @@ COMMON_TB = [
     "tools/driver.py (case files, result parsing, classification)",
 ]
 
+HOOK_COMMITS = ["4d6c2a5", "be1b687", "e88a172"]
+
 PROPS = {
     "C09": {
         "props_file": "Props/C09.v",
@@ -27,6 +29,49 @@ PROPS = {
                                      "fastnbt/serde_json for '{'-JSON text components: outside the model (cases skipped and counted)"],
         "assumptions": ["values within protocol limits: strings/arrays shorter than 2^31 bytes, text components shorter than 2^16 bytes and not JSON-form"],
     },
+    "C11": {
+        "props_file": "Props/C11.v",
+        "run_files": ["Run/CaseC11.v"],
+        "imports": ["Lib.Bytes", "Run.CaseC11"],
+        "case_type": "c11case",
+        "checkers": {"H": "check_c11", "D": "check_c11"},
+        "harness": [{"bin": "hash"}],
+        "quick_scale": 1, "thorough_scale": 12, "search_factor": 6,
+        "ties": ["Crypto/McHash.v: hand model of num-bigint 0.4.6 from_signed_bytes_be / to_str_radix(16) and of "
+                 "passage-adapters/src/authentication/mod.rs minecraft_hash, tied by the hash binary (families H, D)"],
+        "allowed_axioms": [],
+        "rule": "hash binary: H = real minecraft_hash on fixed vectors, seeded (id, secret, key) triples and triples found by "
+                "counter search per digest class (top bit, 00, 00 0x, nibble 0, ff, ff fx, 80, 7f, negative with low byte 00); "
+                "D = BigInt::from_signed_bytes_be(d).to_str_radix(16) on chosen digests; every case is non-trivial "
+                "(distinct digest); monitor = output equals show_signed_hex(twos_complement_be(sha1(..))) from Spec only",
+        "trusted_base": COMMON_TB + ["Spec/Sha1.v (SHA-1 spec, FIPS vectors), Spec/SignedHex.v (notation spec, proved bijective)",
+                                     "hand model of num-bigint 0.4.6 in Crypto/McHash.v (tied by the hash correspondence)",
+                                     "sha1 0.10 crate = Spec/Sha1.v (tied by the H cases only)"],
+        "assumptions": [],
+    },
+    "C18": {
+        "props_file": "Props/C18.v",
+        "run_files": ["Run/CaseC18.v"],
+        "imports": ["Lib.Bytes", "Adapters.Filters", "Run.CaseC18"],
+        "case_type": "c18case",
+        "checkers": {"FS": "check_c18", "PU32": "check_c18"},
+        "harness": [{"bin": "filters", "crate": "harness-app"}],
+        "quick_scale": 1, "thorough_scale": 8, "search_factor": 4,
+        "ties": ["harness-app/src/bin/filters.rs builds the adapters through DynFilterAdapters::from_config / DynStrategyAdapter::from_config "
+                 "(config values via serde_json::from_value or the public config structs) and runs filter + select of the real code",
+                 "regex answers recorded from the regex crate for exactly the (pattern, text) pairs of each case",
+                 "PU32: str::parse::<u32> against Filters.parse_u32"],
+        "allowed_axioms": [],
+        "rule": "filters binary: deterministic grid (each operation x absent/equal/different/empty value x scope, each player-list criterion "
+                "x allow/block x hit/miss, count sets x capacities) plus seeded chains of 0-4 filters over 0-6 targets with hostile metadata, "
+                "ties and duplicates (FS); numeric strings around the u32 grammar and bound (PU32); non-trivial = FS case with at least one "
+                "filter or a player_fill strategy and at least one target, or any PU32 case",
+        "trusted_base": COMMON_TB + ["hand model of passage-adapters filter/{meta,option,player_allow,player_block,mod}.rs, strategy/{any,player_fill}.rs "
+                                     "and src/adapter/{filter,strategy}.rs in Adapters/Filters.v (tied by the filters correspondence)",
+                                     "regex crate: a Section variable in the theorems, a recorded finite table in executions",
+                                     "uuid crate: UUID text -> u128 is done on the Rust side"],
+        "assumptions": ["the configuration was accepted by from_config (valid regexes and UUID strings); built-in strategies only (not grpc)"],
+    },
 }
 
 
@@ -34,6 +79,9 @@ def nontrivial(pid, fam, term):
     if pid == "C09":
         if fam in ("VI", "VL", "VR"): return True
         return "[]" not in term.split("(hx")[0] or fam == "DEC"
+    if pid == "C18":
+        if fam == "PU32": return True
+        return ("mkFilter" in term or "SFill" in term) and "mkTarget" in term
     return True
 
 
